@@ -22,23 +22,42 @@ def viol(root):
         out[pid] = s
     return out
 
+def _eval_patch(pf):
+    tmp = tempfile.mkdtemp(prefix="sa-seed-")
+    try:
+        shutil.copytree(os.path.join(repo_root(), "genlm"), os.path.join(tmp, "genlm"), ignore=shutil.ignore_patterns("__pycache__"))
+        r = subprocess.run(["patch", "-p1", "-s", "-d", tmp, "-i", pf], capture_output=True, text=True)
+        if r.returncode != 0:
+            return pf, None
+        return pf, viol(tmp)
+    except Exception as e:  # a crash of the analysis on a patched tree is reported, not hidden
+        return pf, {"__error__": {(f"INTERNAL:{type(e).__name__}", str(e)[:80])}}
+    finally:
+        shutil.rmtree(tmp, ignore_errors=True)
+
+
 base = viol(repo_root())
+_all = []
+for _d in ("seeded", "benign"):
+    _dd = os.path.join(V, _d)
+    if os.path.isdir(_dd):
+        for _x in sorted(os.listdir(_dd)):
+            if os.path.isfile(os.path.join(_dd, _x, "patch.diff")):
+                _all.append(os.path.join(_dd, _x, "patch.diff"))
+import multiprocessing as _mp
+with _mp.get_context("fork").Pool(14) as _pool:
+    RESULTS = dict(_pool.map(_eval_patch, _all, chunksize=1))
 rows = []
 for sid in sorted(os.listdir(os.path.join(V, "seeded"))):
     d = os.path.join(V, "seeded", sid)
     if not os.path.isfile(os.path.join(d, "patch.diff")):
         continue
     meta = json.load(open(os.path.join(d, "meta.json")))
-    tmp = tempfile.mkdtemp(prefix="sa-seed-")
-    try:
-        shutil.copytree(os.path.join(repo_root(), "genlm"), os.path.join(tmp, "genlm"), ignore=shutil.ignore_patterns("__pycache__"))
-        r = subprocess.run(["patch", "-p1", "-s", "-d", tmp, "-i", os.path.join(d, "patch.diff")], capture_output=True, text=True)
-        if r.returncode != 0:
-            rows.append((sid, meta.get("property"), "patch does not apply to the current tree", ""))
-            continue
-        got = viol(tmp)
-    finally:
-        shutil.rmtree(tmp, ignore_errors=True)
+    got = RESULTS.get(os.path.join(d, "patch.diff"))
+    if got is None:
+        rows.append((sid, meta.get("property"), "patch does not apply to the current tree", ""))
+        continue
+    got = {p: got.get(p, set()) for p in base}
     own = meta.get("property")
     own_new = sorted(got.get(own, set()) - base.get(own, set()))
     others = {p: sorted(got[p] - base[p]) for p in got if p != own and got[p] - base[p]}
@@ -68,16 +87,11 @@ for bid in sorted(os.listdir(bdir)) if os.path.isdir(bdir) else []:
     pf = os.path.join(bdir, bid, "patch.diff")
     if not os.path.isfile(pf):
         continue
-    tmp = tempfile.mkdtemp(prefix="sa-benign-")
-    try:
-        shutil.copytree(os.path.join(repo_root(), "genlm"), os.path.join(tmp, "genlm"), ignore=shutil.ignore_patterns("__pycache__"))
-        r = subprocess.run(["patch", "-p1", "-s", "-d", tmp, "-i", pf], capture_output=True, text=True)
-        if r.returncode != 0:
-            brows.append((bid, "patch does not apply to the current tree", ""))
-            continue
-        got = viol(tmp)
-    finally:
-        shutil.rmtree(tmp, ignore_errors=True)
+    got = RESULTS.get(pf)
+    if got is None:
+        brows.append((bid, "patch does not apply to the current tree", ""))
+        continue
+    got = {p: got.get(p, set()) for p in base}
     new = {p: sorted({a for a, _ in got[p] - base[p]}) for p in got if got[p] - base[p]}
     hard = sorted({a for v_ in new.values() for a in v_ if not a.startswith("UNDECIDED:")})
     soft = sorted({a for v_ in new.values() for a in v_ if a.startswith("UNDECIDED:")})
